@@ -3,6 +3,8 @@
 (* (r0, r1) sequences yielded by the real row iterators against the        *)
 (* iteration rule of RowAccess.tla.  One NDJSON line per iteration:        *)
 (*   {"n": rows, "c": chunk size, "events": [{"r0","r1"}, ...]}            *)
+(* an event with r0 = -1 is a random access made between two yields; its  *)
+(* r1 says whether it returned the stored rows (1) or not (0).            *)
 (* Clause numbers 5xx.                                                     *)
 (***************************************************************************)
 EXTENDS Integers, Sequences, TLC, Json, IOUtils
@@ -16,7 +18,9 @@ ASSUME \A i \in 1..(2 * N) : TLCSet(i, 0)
 Min2(a, b) == IF a < b THEN a ELSE b
 Next == /\ l <= Len(Ev) /\ l' = l + 1 /\ UNCHANGED tid
         /\ LET e == Ev[l] n == Traces[tid].n c == Traces[tid].c IN
-           IF ~(r0 < n) THEN TLCSet(N + tid, 501) /\ FALSE                  \* yields after the end
+           IF e.r0 = -1                                                      \* a random access between two yields:
+           THEN (IF e.r1 = 1 THEN UNCHANGED r0 ELSE TLCSet(N + tid, 505) /\ FALSE)   \* right values, cursor not moved
+           ELSE IF ~(r0 < n) THEN TLCSet(N + tid, 501) /\ FALSE                  \* yields after the end
            ELSE IF ~(e.r0 = r0) THEN TLCSet(N + tid, 502) /\ FALSE          \* not contiguous / out of order
            ELSE IF ~(e.r1 = Min2(n, r0 + c)) THEN TLCSet(N + tid, 503) /\ FALSE   \* wrong chunk length
            ELSE r0' = e.r1
